@@ -339,7 +339,14 @@ pub struct Built {
 /// Build the scenario's files. Err(reason) = inconclusive (could not build / collision).
 pub fn build(dir: &Path, sc: &Scenario) -> Result<Built, String> {
     let source = sc.source();
-    let cspec = CompressSpec::new(sc.cfg, sc.comp, sc.hash_len);
+    let mut cspec = CompressSpec::new(sc.cfg, sc.comp, sc.hash_len);
+    // How the archive came to be (source on stdin or -i FILE, --buffered-chunks of the
+    // compress) must not matter to any clone-side property; derived from the source seed
+    // so that a scenario replays identically.
+    if sc.src_seed % 4 == 1 {
+        cspec.stdin = Some(sc.src_seed | 1);
+    }
+    cspec.buffered = [None, Some(1), Some(2), Some(16)][((sc.src_seed >> 3) % 4) as usize];
     let arch = scn::make_archive(dir, "a", &source, &cspec)?;
     let mut prior = sc.prior.as_ref().map(|d| d.apply(&source, &sc.cfg));
     if sc.out_kind == OutKind::BlockDev {
